@@ -8,7 +8,7 @@
    a message that is not in the table is reported (`k_missing`) and makes the run fail. *)
 From Coq Require Import NArith ZArith Ascii String List Bool.
 From Coq Require Import Init.Byte.
-From PyC Require Import Base Cbor Ids.
+From PyC Require Import Base Cbor Ids IdsSeq.
 From PyCGen Require Import IdsGen.
 Import ListNotations.
 Open Scope N_scope.
@@ -98,8 +98,32 @@ Definition ma_policy (ma : bytes) : option bytes :=
   | _ => None
   end.
 
+(* ---------------- operation sequences on one object (IdsSeq.v) ---------------- *)
+(* an edit whose value travels as the bytes of a standalone serialization *)
+Inductive bedit := BSet (k : N) (v : bytes) | BDel (k : N) | BAppend (v : bytes) | BPut (v : bytes).
+(* one step of a recorded life of an object.  `after` = obj.to_cbor() right after the step;
+   `cont` = the container the library would SHIP at the moment of a read (Transaction.to_cbor() for a body and for
+   auxiliary data, TransactionWitnessSet.to_cbor() for a native script / a datum); `obs` = the identifier it answered *)
+Inductive sstep :=
+| SRead (lvl : nat) (cont obs : bytes)
+| SEdit (p : list pstep) (e : bedit) (after : bytes)
+| SReenc (after : bytes)
+| SCopy (after : bytes)
+| SRewrap (after : bytes)
+| SNeutral (after : bytes).
+
+Definition dec_edit (e : bedit) : option edit :=
+  match e with
+  | BSet k v => option_map (ESet k) (decode v)
+  | BDel k => Some (EDel k)
+  | BAppend v => option_map EAppend (decode v)
+  | BPut v => option_map EPut (decode v)
+  end.
+
 (* ---------------- cases ---------------- *)
 Inductive icase :=
+| KSeq (k : okind) (init : bytes) (steps : list sstep)
+      (* init = obj.to_cbor() of the object the sequence starts from *)
 | KTx (tx body_direct id_body : bytes) (ids : list bytes)
       (* tx = Transaction.to_cbor(); body_direct = tx.transaction_body.to_cbor(); id_body = body.id;
          ids = the same identifier obtained the other ways (tx.id, body.hash()) *)
@@ -153,8 +177,70 @@ Section Judge.
   Let H := Ht t.
   Let c := gen_cfg.
 
+  (* the bytes of the object inside the container the library ships *)
+  Definition seq_cut (k : okind) (cont : bytes) : option bytes :=
+    match k with
+    | QBody => match array_items cont with Some ((_, sl) :: _) => Some sl | _ => None end
+    | QAux => match array_items cont with Some [_; _; _; (_, sl)] => Some sl | _ => None end
+    | QDatum => match ws_field cont 4 with Some [(_, sl)] => Some sl | _ => None end
+    | QNative => match ws_field cont 1 with Some [(_, sl)] => Some sl | _ => None end
+    end.
+
+  Record sacc := { a_st : option ostate;      (* state of the model (None: an edit did not apply) *)
+                   a_cur : bytes;             (* the library's obj.to_cbor() after the last step *)
+                   a_corr : bool; a_oracle : bool; a_need : list (nat * bytes) }.
+
+  (* a step that (possibly) moves the object: the model's item must serialize to the library's new bytes *)
+  Definition seq_moved (a : sacc) (st' : option ostate) (after : bytes) : sacc :=
+    {| a_st := st'; a_cur := after;
+       a_corr := a_corr a && match st' with Some s => bytes_eqb (enc (s_item s)) after | None => false end;
+       a_oracle := a_oracle a; a_need := a_need a |}.
+
+  Definition seq_step (k : okind) (a : sacc) (s : sstep) : sacc :=
+    match s with
+    | SRead lvl cont obs =>
+        match seq_cut k cont with
+        | Some sl =>
+            (* ORACLE: the identifier answered now = the specified digest of the bytes shipped now *)
+            let q := q_spec_pre_b k sl in
+            (* CORRESPONDENCE: the model (regenerated constants, incl. the memoisation flags) answers the same,
+               and the shipped bytes are the object's current serialization *)
+            let m := match a_st a with
+                     | Some st => let r := read c H k lvl st in
+                                  (Some (snd r), bytes_eqb (fst r) obs, [q_pre c k (s_item st)])
+                     | None => (None, false, [])
+                     end in
+            {| a_st := fst (fst m); a_cur := a_cur a;
+               a_corr := a_corr a && snd (fst m) && bytes_eqb sl (a_cur a);
+               a_oracle := a_oracle a && bytes_eqb obs (H (fst q) (snd q));
+               a_need := q :: snd m ++ a_need a |}
+        | None => {| a_st := a_st a; a_cur := a_cur a; a_corr := false; a_oracle := false; a_need := a_need a |}
+        end
+    | SEdit p e after =>
+        seq_moved a (match a_st a, dec_edit e with
+                     | Some st, Some e' => exec c H k st (OpEdit p e')
+                     | _, _ => None end) after
+    | SReenc after =>
+        seq_moved a (match a_st a, decode after with
+                     | Some st, Some x' => exec c H k st (OpReenc x')
+                     | _, _ => None end) after
+    | SCopy after =>
+        seq_moved a (match a_st a, decode after with
+                     | Some st, Some x' => exec c H k st (OpCopy x')
+                     | _, _ => None end) after
+    | SRewrap after => seq_moved a (match a_st a with Some st => exec c H k st OpRewrap | None => None end) after
+    | SNeutral after => seq_moved a (match a_st a with Some st => exec c H k st OpNeutral | None => None end) after
+    end.
+
   Definition judge (k : icase) : verdict :=
     match k with
+    | KSeq kd ini steps =>
+        let st0 := option_map IdsSeq.init (decode ini) in
+        let a0 := {| a_st := st0; a_cur := ini;
+                     a_corr := match st0 with Some s => bytes_eqb (enc (s_item s)) ini | None => false end;
+                     a_oracle := true; a_need := [] |} in
+        let a := fold_left (seq_step kd) steps a0 in
+        {| v_corr := a_corr a; v_oracle := a_oracle a; v_need := a_need a |}
     | KTx tx body_direct id_body ids =>
         match array_items tx with
         | Some ((b_ast, b_sl) :: _) =>
